@@ -3,7 +3,7 @@ ID = "C03"
 LEVEL = "proof"
 TAGS = ("C03",)
 CONTRACT_MODULES = ALL_CONTRACTS
-FUNCTIONS = MOTION_FUNCS + [S + "disableExclusion"] + HANDLER_FUNCS + [f for f in AXIS_FUNCS if not f.endswith("setLogicalOffsetPosition")] + [S + "resetState"]
+FUNCTIONS = MOTION_FUNCS + [S + "disableExclusion"] + HANDLER_FUNCS + [f for f in AXIS_FUNCS if not f.endswith("setLogicalOffsetPosition")] + [S + "resetState"] + [P + "on_event"]
 SELFCHECK = [S + "exitExcludedRegion", S + "processLinearMoves", S + "disableExclusion", AX + "nativeToLogical", AX + "logicalToNative", AX + "setLogicalPosition"]
 ASSUMPTIONS = ["A1", "A2", "A3", "A4", "A5", "INDUCTION"]
 EXTRA_ASSUMPTIONS = ["domain of the property: no homing / G92 X Y Z / M206 while an episode is open (invariant I-lastpos: the remembered entry position is the printer's physical position)"]
